@@ -706,6 +706,29 @@ example : (invoke (run init hist2) (envU U1 3001) (.register aBCom U1 mail 1 2 1
 def hist3 : List (Env × Op) := hist0 ++ [(envU U1 3000, .addRecord zABCom 16 one)]
 example : isAvailable (run init hist3) (envU U2 3001) aBCom = some false := by decide
 example : (invoke (run init hist3) (envU U1 3001) (.register aBCom U1 mail 1 2 100 4)).2 = none := by decide
+-- sub-names that contain the whole name once more (the model's test is "ends with `.`+name", which is what the code's
+-- LAST-occurrence search decides; a first-occurrence search finds the name at index 0 / after a letter and misses
+-- these): a.com holds a record for x.a.com.x.a.com (both occurrences at label boundaries; `com` is a legal inner
+-- label) resp. yx.a.com.x.a.com (first occurrence after a letter): x.a.com is not available and cannot be
+-- registered, the record stays readable; x.a.com.yx.a.com (ends with the text after a letter) does not block it
+def xAComTwice : Name := xACom ++ dot :: xACom
+def yxAComXACom : Name := 121 :: xACom ++ dot :: xACom
+def xAComYxACom : Name := xACom ++ dot :: 121 :: xACom
+example : conflict (run init (hist0 ++ [(envU U1 3000, .addRecord xAComTwice 16 one)])) aCom xACom = true := by decide
+example : conflict (run init (hist0 ++ [(envU U1 3000, .addRecord yxAComXACom 16 one)])) aCom xACom = true := by decide
+example : conflict (run init (hist0 ++ [(envU U1 3000, .addRecord xAComYxACom 16 one)])) aCom xACom = false := by decide
+def hist4 : List (Env × Op) := hist0 ++ [(envU U1 3000, .addRecord xAComTwice 16 one)]
+example : isAvailable (run init hist4) (envU U2 3001) xACom = some false := by decide
+example : (invoke (run init hist4) (envU U1 3001) (.register xACom U1 mail 1 2 100 4)).2 = none := by decide
+example : resolve (run init hist4) (envU U2 3001) xAComTwice 16 = some [one] := by decide
+example : getRecords (run init hist4) (envU U2 3001) xAComTwice 16 = some [one] := by decide
+def hist5 : List (Env × Op) := hist0 ++ [(envU U1 3000, .addRecord yxAComXACom 16 one)]
+example : isAvailable (run init hist5) (envU U2 3001) xACom = some false := by decide
+example : (invoke (run init hist5) (envU U1 3001) (.register xACom U1 mail 1 2 100 4)).2 = none := by decide
+def hist6 : List (Env × Op) := hist0 ++ [(envU U1 3000, .addRecord xAComYxACom 16 one)]
+example : isAvailable (run init hist6) (envU U2 3001) xACom = some true := by decide
+example : (invoke (run init hist6) (envU U1 3001) (.register xACom U1 mail 1 2 100 4)).2 =
+    some (.bool true, [.transfer [] U1 1 xACom]) := by decide
 -- CNAME chains a → b → c → d: two links answer, three links fail, a cycle fails
 def chainHist (names : List (Name × Name)) : List (Env × Op) :=
   hist0 ++ [(envU U1 3000, .addRecord aCom 16 one), (envU U1 3001, .addRecord bCom 16 two),
